@@ -7,4 +7,6 @@ Extraction Language OCaml.
 
 Definition dcsim_run := DcStream.dcsim_run.
 Definition dcsim_judge := DcStream.dcsim_judge.
-Extraction "../ocaml/gen/C20/model.ml" dcsim_run dcsim_judge.
+Definition dcrecv_run := DcStream.dcrecv_run.
+Definition dcrecv_judge := DcStream.dcrecv_judge.
+Extraction "../ocaml/gen/C20/model.ml" dcsim_run dcsim_judge dcrecv_run dcrecv_judge.
